@@ -1,6 +1,7 @@
 import Rare.Proofs.C19Rat
 import Rare.Proofs.C19Complete
 import Rare.Proofs.C19Fuel
+import Rare.Proofs.C19Lit
 import Rare.Gen.C19
 /-!
 # C19 — math formulas follow the documented precedence; constants equal bound variables
@@ -158,11 +159,26 @@ theorem eval_no_panic (s : Bytes) (err : Err) (h : compile A s = .error err) (m 
     err ≠ .panic m :=
   compileF_noPanic A _ s err h m
 
-/-- **Compilation always returns**: the model's recursion budgets (token loop, nesting of groups)
-    are never exhausted, so for every text `compile` answers either a parse or one of the Go error
-    values – "the model returned" is not an assumption of the other theorems. -/
+/-- **Compilation always returns.**  The model has exactly two recursion budgets, and neither is ever
+    exhausted: (1) `climb`'s, the loop of `compileTokens` (started with `rest.length + 1`; every round
+    consumes a token: `climb_noFuel`), and (2) `compileF`'s, the nesting of groups (`s.length + 1`; a
+    group is strictly shorter than the text around it: `tok_group_len`, `compileF_noFuel`).  Everything
+    else is structural recursion (`tokLoop` over the bytes, `prefixInOps.go` over ≤ 2 bytes,
+    `getNextExpr` over the tokens, `Expr.probe`/`simplify`/`Expr.eval` over the expression,
+    `opCodeOrderGo` over the table).  So for every text `compile` answers either a parse or one of the
+    Go error values – "the model returned" is not an assumption of the other theorems. -/
 theorem compile_returns (s : Bytes) : compile A s ≠ .error .fuel :=
   compile_noFuel A s
+
+
+/-- …and the budget is irrelevant beyond that: with any larger budget a text that compiles still
+    compiles to the same parse tree (so nothing depends on the particular `s.length + 1`). -/
+theorem compile_budget_irrelevant (s : Bytes) (t : Tree) (e : Expr α) (h : compile A s = .ok (t, e))
+    (f : Nat) (hf : s.length < f) : ∃ e', compileF A f s = .ok (t, e') ∧ ∀ b, e'.eval A b = e.eval A b := by
+  obtain ⟨htok, g⟩ := compileF_post A _ s t e h
+  obtain ⟨e', he'⟩ := compileF_complete A f s t hf htok g.wp g.deep g.lits
+  obtain ⟨_, g'⟩ := compileF_post A _ s t e' he'
+  exact ⟨e', he', fun b => by rw [g'.ev b, g.ev b]⟩
 
 /-- **Malformed formulas are rejected at compile time**: a text that is not the flattening of any
     well-precedenced parse tree with proper literals (unbalanced parentheses, two operands or two
@@ -177,6 +193,115 @@ theorem malformed_rejected (s : Bytes)
   | ok r =>
     obtain ⟨t, e⟩ := r
     exact absurd ⟨t, parse_wellprec A s t e hc⟩ h
+
+
+/-- **Full characterisation of "malformed"** (`Spec/C19Grammar.lean`): a text compiles if and only if
+    its token sequence is derivable by
+
+        formula ::= operand ( binop operand | group )*        operand ::= unary* ( literal | group )
+
+    with proper literals, operators from the table in `/repo`, and every group – also one that stands
+    for an implied multiplication – recursively a formula.  The grammar mentions neither parse trees
+    nor precedence; `accepts` is its executable two-state recogniser. -/
+theorem compile_iff_grammar (s : Bytes) :
+    (∃ t e, compile A s = .ok (t, e)) ↔
+      accepts tok (fun v => (classify A v).isSome) (fun o => Gen.C19.opKeys.contains o) s = true := by
+  rw [gen_tables.2.1]
+  constructor
+  · rintro ⟨t, e, h⟩
+    exact (compile_iff_accepts A s).mp ⟨(t, e), h⟩
+  · intro h
+    obtain ⟨⟨t, e⟩, hr⟩ := (compile_iff_accepts A s).mpr h
+    exact ⟨t, e, hr⟩
+
+/-- …and everything else is rejected with one of the Go error values (no panic, no non-return):
+    the converse direction of `malformed_rejected`, so "rejected" and "not in the grammar" coincide. -/
+theorem rejected_iff_not_grammar (s : Bytes) :
+    (∃ err, compile A s = .error err ∧ (∀ m, err ≠ .panic m) ∧ err ≠ .fuel) ↔
+      accepts tok (fun v => (classify A v).isSome) (fun o => Gen.C19.opKeys.contains o) s = false := by
+  constructor
+  · rintro ⟨err, h, _⟩
+    cases ha : accepts tok (fun v => (classify A v).isSome) (fun o => Gen.C19.opKeys.contains o) s with
+    | false => rfl
+    | true =>
+      obtain ⟨t, e, hc⟩ := (compile_iff_grammar A s).mpr ha
+      rw [hc] at h; cases h
+  · intro ha
+    cases hc : compile A s with
+    | error err => exact ⟨err, rfl, eval_no_panic A s err hc, fun h => compile_returns A s (h ▸ hc)⟩
+    | ok r =>
+      obtain ⟨t, e⟩ := r
+      have := (compile_iff_grammar A s).mp ⟨t, e, hc⟩
+      rw [ha] at this; cases this
+
+/-- The nesting budget of the grammar's recogniser is irrelevant beyond the length of the text. -/
+theorem grammar_budget_irrelevant (s : Bytes) (f : Nat) (hf : s.length < f) :
+    acceptsF tok (fun v => (classify A v).isSome) (fun o => opKeys.contains o) f s =
+      accepts tok (fun v => (classify A v).isSome) (fun o => opKeys.contains o) s :=
+  acceptsF_stable A f s hf
+
+/-- The grammar and the tree characterisation describe the same texts. -/
+theorem grammar_iff_wellprec (s : Bytes) :
+    accepts tok (fun v => (classify A v).isSome) (fun o => Gen.C19.opKeys.contains o) s = true ↔
+      ∃ t : Tree, tok s = some t.flatten ∧ WellPrec Gen.C19.orderOfOps t ∧ Deep tok t ∧
+        t.allLits (fun v => (classify A v).isSome) = true := by
+  rw [← compile_iff_grammar]
+  constructor
+  · rintro ⟨t, e, h⟩; exact ⟨t, parse_wellprec A s t e h⟩
+  · rintro ⟨t, h1, h2, h3, h4⟩
+    obtain ⟨e, he⟩ := parse_complete A s t h1 h2 h3 h4
+    exact ⟨t, e, he⟩
+
+/-! ### Literals -/
+
+/-- A non-empty run of ASCII letters and digits is ONE literal token (no operator, unary operator,
+    parenthesis or blank can start inside it). -/
+theorem literal_token (s : Bytes) (hne : s ≠ []) (h : ∀ b ∈ s, isAlnumB b = true) :
+    tok s = some [⟨s, .lit⟩] := by
+  simp only [tok, tokenize_alnum s hne h]
+
+/-- **Literal value, `0x`/`0X`**: for every non-empty string `ds` of hexadecimal digits (either case)
+    whose positional value fits int64, the formula `0x<ds>` compiles to a constant, and under every
+    binding its value is `float64(value)` (`A.ofInt`). -/
+theorem literal_value_hex (x : UInt8) (hx : x = 120 ∨ x = 88) (ds : Bytes) (hne : ds ≠ [])
+    (hd : ∀ d ∈ ds, isBaseDigit 16 d = true) (hr : (baseVal 16 ds : Int) ≤ maxInt64) (b : Binding α) :
+    ∃ e, compile A (48 :: x :: ds) = .ok (.lit (48 :: x :: ds), e) ∧ e.eval A b = A.ofInt (baseVal 16 ds) := by
+  have hp : prefixBase x = some 16 := by rcases hx with rfl | rfl <;> decide
+  exact ⟨_, compile_prefixed_lit A x 16 ds hp hne hd (by unfold maxInt64 at hr; omega), rfl⟩
+
+/-- **Literal value, `0b`/`0B`** (binary digits). -/
+theorem literal_value_bin (x : UInt8) (hx : x = 98 ∨ x = 66) (ds : Bytes) (hne : ds ≠ [])
+    (hd : ∀ d ∈ ds, isBaseDigit 2 d = true) (hr : (baseVal 2 ds : Int) ≤ maxInt64) (b : Binding α) :
+    ∃ e, compile A (48 :: x :: ds) = .ok (.lit (48 :: x :: ds), e) ∧ e.eval A b = A.ofInt (baseVal 2 ds) := by
+  have hp : prefixBase x = some 2 := by rcases hx with rfl | rfl <;> decide
+  exact ⟨_, compile_prefixed_lit A x 2 ds hp hne hd (by unfold maxInt64 at hr; omega), rfl⟩
+
+/-- `0o`/`0O` (octal; `strconv.ParseInt(s, 0, 64)` accepts it as well). -/
+theorem literal_value_oct (x : UInt8) (hx : x = 111 ∨ x = 79) (ds : Bytes) (hne : ds ≠ [])
+    (hd : ∀ d ∈ ds, isBaseDigit 8 d = true) (hr : (baseVal 8 ds : Int) ≤ maxInt64) (b : Binding α) :
+    ∃ e, compile A (48 :: x :: ds) = .ok (.lit (48 :: x :: ds), e) ∧ e.eval A b = A.ofInt (baseVal 8 ds) := by
+  have hp : prefixBase x = some 8 := by rcases hx with rfl | rfl <;> decide
+  exact ⟨_, compile_prefixed_lit A x 8 ds hp hne hd (by unfold maxInt64 at hr; omega), rfl⟩
+
+/-- Decimal integers without a leading zero (a leading `0` makes `ParseInt(s, 0, 64)` read octal:
+    `010` is 8 – Go's rule, mirrored by the model and exercised by the correspondence). -/
+theorem literal_value_dec (ds : Bytes) (hne : ds ≠ []) (h0 : ds.head? ≠ some 48)
+    (hd : ∀ d ∈ ds, isBaseDigit 10 d = true) (hr : (baseVal 10 ds : Int) ≤ maxInt64) (b : Binding α) :
+    ∃ e, compile A ds = .ok (.lit ds, e) ∧ e.eval A b = A.ofInt (baseVal 10 ds) :=
+  ⟨_, compile_dec_lit A ds hne h0 hd (by unfold maxInt64 at hr; omega), rfl⟩
+
+/-! ### Implied multiplication -/
+
+/-- **Implied multiplication is multiplication.**  In the parse of any formula every implied node
+    carries the operator `*`; and writing the implied multiplications out (`t.explicit`: `2(x)` ↦
+    `2*(x)`, any text `s'` with those tokens) gives a formula that compiles, to the same parse with
+    written `*` nodes only, and has the same value under every binding.  (Precedence of the implied
+    `*` is that of `*`: `parse_wellprec`.) -/
+theorem implied_mul_is_mul (s s' : Bytes) (t : Tree) (e : Expr α) (hc : compile A s = .ok (t, e))
+    (htok : tok s' = some t.explicit.flatten) :
+    t.impliedStar = true ∧ t.explicit.noImplied = true ∧
+    ∃ e', compile A s' = .ok (t.explicit, e') ∧ ∀ b, e'.eval A b = e.eval A b :=
+  ⟨wp_impliedStar t (parse_wellprec A s t e hc).2.1, explicit_noImplied t, compile_explicit A s s' t e hc htok⟩
 
 /-- The guarded integer operators on the exact instance: `%` by zero and negative shift counts
     are "not a number", never a crash; otherwise `%` is Go's truncated remainder. -/
@@ -229,5 +354,30 @@ example : evalStr (ascii "(2") 0 = none := by decide +kernel
 example : evalStr (ascii "2 3)") 0 = none := by decide +kernel
 example : evalStr (ascii "2 * * 3") 0 = none := by decide +kernel
 example : evalStr (ascii "(2)3") 0 = none := by decide +kernel
+
+/-- the grammar on concrete texts: accepted … -/
+example : (["2(x)+-3", "sin(x)(2)", "-(-x)", "a<<2>=b&&!c", "((1))", "0x1F*0b11"].all fun s =>
+    accepts tok (fun v => (classify ratArith v).isSome) (fun o => Gen.C19.opKeys.contains o) (ascii s)) = true := by
+  decide +kernel
+/-- … and malformed (empty, dangling/doubled operator, operand after a group, unary after an operand,
+    bad literal, malformed group, unbalanced) -/
+example : (["", " ", "2+", "2**3", "(2)3", "2!", "2x", "2+(3*)", "(2", "2)", "()", "1.2.3"].all fun s =>
+    !accepts tok (fun v => (classify ratArith v).isSome) (fun o => Gen.C19.opKeys.contains o) (ascii s)) = true := by
+  decide +kernel
+
+/-- `literal_value_hex` / `_bin` are not vacuous: `0x1F` = 31, `0XfF` = 255, `0b101` = 5 -/
+example : isBaseDigit 16 49 = true ∧ isBaseDigit 16 70 = true ∧ isBaseDigit 16 102 = true ∧
+    isBaseDigit 16 103 = false ∧ baseVal 16 [49, 70] = 31 ∧ baseVal 16 [102, 70] = 255 ∧
+    baseVal 2 [49, 48, 49] = 5 ∧ isBaseDigit 2 50 = false := by decide
+example : evalStr (ascii "0x1F + 0XfF + 0b101 + 0o17") 0 = some (some 306) := by decide +kernel
+
+/-- `implied_mul_is_mul` is not vacuous: `2(x)^2` parses with an implied node, `2*(x)^2` has the
+    tokens of its explicit form; both are 2·(x²) = 18 for x = 3. -/
+example : parseStr (ascii "2(x)^2") =
+      some (.bin true [42] (.lit [50]) (.bin false [94] (.grp [120] (.lit [120])) (.lit [50]))) ∧
+    tok (ascii "2*(x)^2") = some
+      (Tree.explicit (.bin true [42] (.lit [50]) (.bin false [94] (.grp [120] (.lit [120])) (.lit [50])))).flatten ∧
+    evalStr (ascii "2(x)^2") 3 = some (some 18) ∧ evalStr (ascii "2*(x)^2") 3 = some (some 18) := by
+  decide +kernel
 
 end Rare.C19
